@@ -102,4 +102,21 @@ int hwloc_decode_from_base64(char const *src, char *target, size_t targsize)
   if (target && k < (size_t)r) target[k] = nondet_char();
   return r;
 }
+/* ownership model of the objects hwloc__xml_import_cpukind creates (bitmap.c / topology.c / cpukinds.c are not part of this TU):
+ * a cpuset is live from alloc until it is freed or handed to hwloc_internal_cpukinds_register (which takes ownership);
+ * an info list is released by hwloc__free_infos */
+struct hwloc_bitmap_s { int live; };
+unsigned verif_bm_allocs, verif_bm_released, verif_infos_freed, verif_register_calls;
+hwloc_bitmap_t hwloc_bitmap_alloc(void) { struct hwloc_bitmap_s *b = malloc(sizeof(*b)); __CPROVER_assume(b != 0); b->live = 1; verif_bm_allocs++; return b; }
+void hwloc_bitmap_free(hwloc_bitmap_t b) { if (b) { __CPROVER_assert(b->live, "no double free of a cpuset"); b->live = 0; verif_bm_released++; } }
+int hwloc_bitmap_sscanf(hwloc_bitmap_t b, const char *string) { __CPROVER_assert(b->live, "cpuset used while allocated"); (void)strlen(string); return nondet_bool() ? 0 : -1; }
+int hwloc__add_info(struct hwloc_infos_s *infos, const char *name, const char *value) { (void)name[0]; (void)value[0]; infos->count++; return 0; }
+void hwloc__free_infos(struct hwloc_infos_s *infos) { (void)infos->count; verif_infos_freed++; }
+int hwloc_internal_cpukinds_register(hwloc_topology_t topology, hwloc_cpuset_t cpuset, int forced_efficiency, const struct hwloc_infos_s *infos, unsigned long flags)
+{
+  (void)topology; (void)forced_efficiency; (void)infos->count; (void)flags;
+  __CPROVER_assert(cpuset != 0 && cpuset->live, "register receives a live cpuset");
+  cpuset->live = 0; verif_bm_released++; verif_register_calls++;      /* takes ownership */
+  return nondet_bool() ? 0 : -1;
+}
 #include "xml.harness.c"
